@@ -193,3 +193,95 @@ def parse_chunked_strict(data):
 
 def sample_lines(ops, limit=300):
     return [o if len(o) < limit else o[:limit] + "..." for o in ops]
+
+
+# --------------------------------------------------------------------------- head generators (C05, C20, C11, C01)
+
+TCHARS = b"!#$%&'*+-.^_`|~0123456789abcdefghijklmnopqrstuvwxyzABCDEFGHIJKLMNOPQRSTUVWXYZ"
+NAMES = [b"Content-Type", b"X-A", b"x-b", b"Set-Cookie", b"Server", b"Date", b"Via", b"ETag", b"Vary", b"X-Long-Header-Name-For-Testing",
+         b"Cache-Control", b"Accept-Ranges", b"a", b"Z9", b"x!#$%&'*+-.^_`|~"]
+
+
+def gen_field_value(rng):
+    r = rng.random()
+    if r < 0.1:
+        return b""
+    if r < 0.2:
+        return bytes([rng.choice([0x80, 0xFF, 0xE9])]) + b"obs" + bytes([rng.choice([0x80, 0xFE])])
+    if r < 0.3:
+        return b"a b\tc"
+    n = rng.choice([1, 2, 5, 12, 40]) if rng.random() < 0.9 else rng.randrange(40, 300)
+    alphabet = b"abcdefghijklmnopqrstuvwxyz0123456789=;,/:\"()<>@[]{}?-_."
+    v = bytes(rng.choice(alphabet) for _ in range(n))
+    return v
+
+
+def gen_response_head(rng, nfields, status=None, version=None, extra_fields=(), names=None):
+    """Returns dict: bytes, version (0/1), status, fields (as sent: name, value-without-OWS), line_ends (offsets
+    just after each line's LF, first = status line), expected (grouped, lower-cased)."""
+    version = version or rng.choice(["1.1", "1.1", "1.0"])
+    if status is None:
+        status = rng.choice([200, 200, 201, 204, 301, 302, 304, 404, 500, 101, 199, 999, 600]) if rng.random() < 0.8 else rng.randrange(101, 1000)
+    r = rng.random()
+    if r < 0.15:
+        reason = None
+    elif r < 0.3:
+        reason = b""
+    elif r < 0.4:
+        reason = b"Very " * rng.randrange(1, 40) + b"Long Reason"
+    elif r < 0.5:
+        reason = b"caf\xe9 \x80\xff"
+    else:
+        reason = rng.choice([b"OK", b"Found", b"Not Found", b"Continue", b"x\ty"])
+    out = b"HTTP/" + version.encode() + b" " + (b"%03d" % status)
+    if reason is not None:
+        out += b" " + reason
+    out += b"\r\n"
+    line_ends = [len(out)]
+    fields = []
+    pool = names or NAMES
+    for i in range(nfields):
+        if rng.random() < 0.85:
+            name = rng.choice(pool)
+        else:
+            name = bytes(rng.choice(TCHARS) for _ in range(rng.randrange(1, 20)))
+        value = gen_field_value(rng)
+        fields.append((name, value))
+    fields = list(extra_fields) + fields
+    rng.shuffle(fields) if extra_fields and rng.random() < 0.5 else None
+    for name, value in fields:
+        ows1 = rng.choice([b"", b" ", b" ", b" ", b"\t", b"  \t "])
+        ows2 = rng.choice([b"", b"", b"", b" ", b"\t", b" \t "])
+        out += name + b":" + ows1 + value + ows2 + b"\r\n"
+        line_ends.append(len(out))
+    out += b"\r\n"
+    return {"bytes": out, "version": 0 if version == "1.0" else 1, "status": status, "fields": fields,
+            "line_ends": line_ends, "expected": group_headers(fields)}
+
+
+def strip_ows(v):
+    return v.strip(b" \t")
+
+
+METHOD_TOKENS = [b"GET", b"POST", b"HEAD", b"PUT", b"DELETE", b"OPTIONS", b"PATCH", b"TRACE", b"CONNECT", b"PROPFIND", b"M-SEARCH", b"X", b"a.b"]
+TARGETS = [b"/", b"/a/b?c=d", b"*", b"http://a.test/x", b"a.test:443", b"/%20x;y", b"/" + b"p" * 200]
+
+
+def gen_request_head(rng, nfields):
+    method = rng.choice(METHOD_TOKENS)
+    target = rng.choice(TARGETS)
+    version = rng.choice(["1.1", "1.1", "1.0"])
+    out = method + b" " + target + b" HTTP/" + version.encode() + b"\r\n"
+    line_ends = [len(out)]
+    fields = []
+    for i in range(nfields):
+        name = rng.choice(NAMES) if rng.random() < 0.85 else bytes(rng.choice(TCHARS) for _ in range(rng.randrange(1, 20)))
+        fields.append((name, gen_field_value(rng)))
+    for name, value in fields:
+        ows1 = rng.choice([b"", b" ", b" ", b"\t"])
+        ows2 = rng.choice([b"", b"", b" ", b"\t"])
+        out += name + b":" + ows1 + value + ows2 + b"\r\n"
+        line_ends.append(len(out))
+    out += b"\r\n"
+    return {"bytes": out, "method": method, "version": 0 if version == "1.0" else 1, "fields": fields,
+            "line_ends": line_ends, "expected": group_headers(fields)}
